@@ -30,6 +30,10 @@ type vstate struct {
 func snapshot(v reflect.Value) reflect.Value {
 	c := reflect.New(v.Type()).Elem()
 	c.Set(v)
+	if v.Kind() == reflect.String {
+		// the model must not keep the variable's own bytes alive: whoever saves the pre-mock value has to
+		c.SetString(strings.Clone(v.String()))
+	}
 	return c
 }
 
@@ -176,6 +180,12 @@ func runHist(ci interface{}, s *vkit.Stats) error {
 				continue
 			}
 			val := vkit.Value(vi.Type, uint64(op.I[1]))
+			if vi.Type.Kind() == reflect.String {
+				// a string built at run time, 25..64 bytes, which only the variable references from here on
+				n := 25 + int(uint64(op.I[1])%40)
+				val = reflect.ValueOf(strings.Repeat("v", n-4) + fmt.Sprintf("%04d", uint64(op.I[1])%10000)).Convert(vi.Type)
+				s.Class("string-variable-holding-the-only-reference-to-heap-bytes")
+			}
 			vi.Direct().Set(val)
 			t.cur = snapshot(vi.Direct())
 			s.Class("assigned-by-the-program-between-mocks")
@@ -184,6 +194,17 @@ func runHist(ci interface{}, s *vkit.Stats) error {
 				nontrivial = true
 			}
 			kinds = append(kinds, "assign")
+		case "gc":
+			// collections and heap reuse while variables are mocked: the saved pre-mock value is goom's to keep alive
+			vkit.GC()
+			vkit.ChurnSmall(3000)
+			for _, x := range st {
+				if x.mocked {
+					s.Class("gc-while-a-variable-is-mocked")
+					break
+				}
+			}
+			kinds = append(kinds, "gc")
 		case "cancel":
 			if !t.mocked {
 				s.Class("cancel-without-set")
@@ -263,7 +284,7 @@ func runHist(ci interface{}, s *vkit.Stats) error {
 	return nil
 }
 
-var opGen = vkit.OpGen([]string{"set", "apply", "cancel", "cancel2", "reset", "newbuilder", "lookup", "assign"}, []int{8, 3, 3, 1, 2, 1, 2, 2}, 3)
+var opGen = vkit.OpGen([]string{"set", "apply", "cancel", "cancel2", "reset", "newbuilder", "lookup", "assign", "gc"}, []int{8, 3, 3, 1, 2, 1, 2, 3, 2}, 3)
 
 func TestVerifC08(t *testing.T) {
 	if f, err := os.OpenFile(os.DevNull, os.O_WRONLY, 0); err == nil && os.Getenv("VERIF_VERBOSE") == "" {
